@@ -175,13 +175,24 @@ def _isdiag(it, a, k):
     return all(I.R(m.item(i, j)).is_zero() for i in range(m.shape[0]) for j in range(m.shape[1]) if i != j)
 
 
+def _assume_generic(op, a, b):
+    """`abs(k) < tol` on symbolic entries: the generic system has no (numerically) vanishing stiffness or damping entry"""
+    if isinstance(op, (ast.Lt, ast.LtE)) and isinstance(a, I.NDArr) and I.is_num(b) and I.R(b).is_const() and I.R(b).const_value() > 0 \
+            and all(not isinstance(x, (bool, I.Und)) and not I.R(x).is_const() for x in a.flat()):
+        r = I.NDArr.full(a.shape, False)
+        r.kind = "bool"
+        return r
+    return None
+
+
 def _interp(ctx, on_opaque=None, stubs=None):
-    """an interpreter with the two facts every rule assumes: the time step is not zero, and ytools.isdiag (another module's routine) says
-    what its name says"""
+    """an interpreter with the facts every rule assumes: the time step is not zero, ytools.isdiag (another module's routine) says what its
+    name says, symbolic entries are not tiny"""
     st = {"pyyeti.ytools.isdiag": _isdiag, "isdiag": _isdiag}
     st.update(stubs or {})
     it = I.Interp(ctx, stubs=st, on_opaque=on_opaque)
     it.nonzero = {"h"}
+    it.assume_cmp = _assume_generic
     return it
 
 
@@ -319,9 +330,10 @@ def _parametrise(docs):
 class NewmarkRun:
     """one configuration of SolveNewmark run through its public interface, and the documented recurrence for the same inputs"""
 
-    def __init__(self, ctx, docs, unc, nonlin=False, ic=True, rf=None, m_none=False, diag2d=False, nt=NT):
+    def __init__(self, ctx, docs, unc, nonlin=False, ic=True, rf=None, m_none=False, diag2d=False, nt=NT, special=False):
         self.ctx, self.docs, self.unc, self.nonlin, self.ic, self.rf, self.m_none, self.diag2d, self.nt = ctx, docs, unc, nonlin, ic, rf, m_none, diag2d, nt
         self.reduced = False
+        self.special = special and not unc      # the sub-family of coupled systems with a diagonal A (inv(A) is entry-wise): see _newmark_runs
         how = {None: "", "trailing": ", one trailing rf mode (slice partitions)", "interleaved": ", one rf mode between the others (index-vector partitions)",
                "leading": ", one leading rf mode (slice partitions that do not start at 0)"}[rf]
         ictxt = {True: "", False: ", no initial conditions given", "v0": ", only v0 given"}[ic]
@@ -332,6 +344,8 @@ class NewmarkRun:
         unc, rf, nt = self.unc, self.rf, self.nt
         shape = (N,) if unc else (N, N)
         a, a1, a0 = (I.NDArr.syms(x, shape) for x in ("a", "a1", "a0"))
+        if self.special:
+            a = I._np_diag(None, [I._np_diag(None, [a], {})], {})           # off-diagonal entries of A are zero; A_1, A_0 (hence M, B, K) stay full
         one = I.NDArr.full(shape, F.const(1)) if unc else I._np_eye(None, [N], {})
         M, B, K = _parametrise(self.docs)(a, a1, a0, one, self.m_none)
         self.M, self.B, self.K = M, B, K
@@ -341,7 +355,9 @@ class NewmarkRun:
                                     for key in ("A", "A_1", "A_0"))
         self.terms = NLTerms() if self.nonlin else None
         self.it = it = _interp(self.ctx, on_opaque=self.terms.hook if self.terms else None)
-        if not unc:
+        if self.special:
+            self.iA = I.inverse(self.A)
+        elif not unc:
             # inv(A) is kept as a matrix of symbols iA (relation iA A = I used only when a comparison needs it: see eq())
             self.iA = mat("iA")
             it.named_inv.append((self.A, self.iA))
@@ -453,7 +469,7 @@ class NewmarkRun:
     def eq(self, x, y):
         if _eq(x, y):
             return True
-        if self.unc or not isinstance(x, I.NDArr) or not isinstance(y, I.NDArr) or x.shape != y.shape:
+        if self.unc or self.special or not isinstance(x, I.NDArr) or not isinstance(y, I.NDArr) or x.shape != y.shape:
             return False
         # The two sides differ as polynomials in the entries of A and of iA (the symbols standing for inv(A)).  They are equal as functions iff
         # the difference vanishes modulo iA A = I.  Cheap proofs of a genuine difference first: on the systems with diagonal, then with upper
@@ -528,6 +544,8 @@ class NewmarkRun:
         out["vel"] = (all(self.eq(vk[:, i], (dk[:, i + 1] - dk[:, i - 1]) / h2) for i in range(1, nt - 1)) and self.eq(vk[:, 0], self.w0), None)
         out["acc"] = (all(self.eq(ak[:, i], (dk[:, i + 1] - 2 * dk[:, i] + dk[:, i - 1]) / sqh) for i in range(1, nt - 1)), None)
         out["last"] = (self.eq(ak[:, nt - 1], (self.De() - 2 * dk[:, nt - 1] + dk[:, nt - 2]) / sqh), None)
+        tt = self.sol.attrs.get("t")
+        out["time"] = (I.s_equal(self.sol.attrs.get("h"), H) and isinstance(tt, I.NDArr) and _eq(tt, I.NDArr.new((nt,), [H * i for i in range(nt)])), None)
         if self.rf:
             R_ = self.RF_
             ok = all(self.eq(self.d[R_, j] * self.krf, self.f[R_, j]) for j in range(nt))
@@ -582,44 +600,52 @@ def _newmark_runs(ctx):
     runs = {}
     n0 = len(ctx.obls)
     left = 900000           # all configurations together need 300 000 term products on the documented code
-    for key, cfg in _NM_CONFIGS:
-        r = NewmarkRun(ctx, docs, **cfg)
+    for key, cfg in sorted(_NM_CONFIGS, key=lambda kc: not kc[1]["unc"]):       # the cheap (diagonal) configurations first: they are decided even when
+        r = NewmarkRun(ctx, docs, **cfg)                                         # the formulas of a broken coupled arm use up the budget
         tag = f"SolveNewmark ({r.tag})"
         facts = None
-        for attempt in (0, 1):
+        for attempt in (0, 1, 2):
             if left <= 0:
                 ctx.error(f"{tag}: evaluation", where, "the work budget of the rule is used up (the formulas of the earlier configurations explode)")
                 break
             # a configuration needs at most 70 000 term products on the documented code: three times that is "the formulas explode"
-            I.work_reset(min(left, 200000 if attempt == 0 else 100000))
+            I.work_reset(min(left, 100000 if (r.reduced and not r.special) else 200000))
             try:
-                ok, why = _guard(ctx, tag, where, lambda: r.run().facts(), partial=attempt == 0)
+                ok, why = _guard(ctx, tag, where, lambda: r.run().facts(), partial=True)
             finally:
                 left -= I.WORK[0]
                 I.work_reset()
             if ok == "toolarge":
-                if r.nt <= 3:
+                if r.nt <= 3 and (r.unc or r.special):
                     ctx.error(f"{tag}: evaluation", where, why)
                     break
-                # the formulas outgrew the budget: decide on the shortest history that has a start-up step, one regular step and the extra step
-                r = NewmarkRun(ctx, docs, **{**cfg, "nt": 3})
+                # the formulas outgrew the budget: decide on the shortest history that has a start-up step, one regular step and the extra step;
+                # if that is still too much for a coupled system, on the coupled systems whose A is diagonal (a sub-family of the domain: a
+                # contradiction found there is a contradiction; agreement there proves nothing and is reported as an analysis error)
+                r = NewmarkRun(ctx, docs, **{**cfg, "nt": 3, "special": r.nt <= 3})
                 r.reduced = True
                 continue
             if ok:
                 facts = why
+                if r.special and all(v_[0] for v_ in facts.values()):
+                    ctx.error(f"{tag}: evaluation", where, "the formulas outgrow the budget; the sub-family with a diagonal A agrees with the documentation, "
+                                                           "which decides nothing for the general system")
+                    facts = None
             break
         r.facts_ = facts
         runs[key] = r if facts is not None else None
         if facts is not None and not facts["shape"][0]:
             ctx.fail(f"{tag}: tsolve returns d, v, a with one row per equation and one column per time step", where, facts["shape"][1])
             runs[key] = None
+    runs = {key: runs.get(key) for key, _cfg_ in _NM_CONFIGS}
     ctx._c17_runs = (runs, list(ctx.obls[n0:]))
     return where, runs
 
 
 def _emit(ctx, r, name, text, where):
     ok, detail = r.facts_[name]
-    ctx.check(ok, f"SolveNewmark ({r.tag}): {text}" + (" [decided on a 3-step history: longer ones outgrow the formula budget]" if r.reduced else ""),
+    ctx.check(ok, f"SolveNewmark ({r.tag}): {text}" + ((" [decided on a 3-step history" + (" of the coupled systems whose A is diagonal" if r.special else "") +
+                                                         ": the formulas of the general case outgrow the budget]") if r.reduced else ""),
               where, None if ok else detail)
 
 
@@ -756,7 +782,8 @@ def r3_differences(ctx):
         return
     for name, text in (("vel", "interior velocities are the documented central difference (u_n+1 - u_n-1)/(2h) and the initial velocity is kept"),
                        ("acc", "interior accelerations are the documented central difference (u_n+1 - 2 u_n + u_n-1)/h^2"),
-                       ("last", "the last velocity and acceleration use the same extrapolated step in the documented differences")):
+                       ("last", "the last velocity and acceleration use the same extrapolated step in the documented differences"),
+                       ("time", "the returned record carries the time step h and the time vector t = h * arange(nt)")):
         bad = [r.tag for r in live.values() if not r.facts_[name][0]]
         ctx.check(not bad, f"tsolve: {text}", where, bad or None)
     for key, r in live.items():
@@ -835,17 +862,8 @@ def _cdf_interp(ctx):
     def su_eig(it_, args, kwargs):
         return I.Opaque("result of get_su_eig")
 
-    def assume(op, a, b):
-        """`abs(k) < tol` on symbolic stiffness: the generic system has no (numerically) rigid-body mode"""
-        if isinstance(op, (ast.Lt, ast.LtE)) and isinstance(a, I.NDArr) and I.is_num(b) and I.R(b).is_const() and I.R(b).const_value() > 0 \
-                and all(not isinstance(x, (bool, I.Und)) and not I.R(x).is_const() for x in a.flat()):
-            r = I.NDArr.full(a.shape, False)
-            r.kind = "bool"
-            return r
-        return None
     it = _interp(ctx, stubs={"pyyeti.ode._utilities.get_su_coef": su_coef, "get_su_coef": su_coef})
     it.overrides["SolveUnc.get_su_eig"] = su_eig        # the eigen-solution of coupled systems is another property's subject
-    it.assume_cmp = assume
     it.su_log = log
     return it
 
@@ -902,6 +920,8 @@ def _diag_damping_case(ctx, where, tag, m, b, k, with_generator, order=1, rf=Non
             kw = {"rf": list(rf)} if rf else {}
             obj = it.instantiate(it.cls(rel, cname), m.copy(), b.copy(), k.copy(), H, order=order, **kw)
             mem = dict(obj.attrs)
+            if mem.get("unc") is not True or mem.get("cdforces") is not False:
+                return {"obj": obj, "members": mem, "early": True}          # all matrices are diagonal: `unc` is documented to be True
             sol = it.call_method(obj, "tsolve", f.copy(), d0.copy(), v0.copy())
             out = {"obj": obj, "members": mem, "sol": sol}
             if with_generator:
@@ -919,6 +939,8 @@ def _diag_damping_case(ctx, where, tag, m, b, k, with_generator, order=1, rf=Non
         res[cname] = r
     c, u = res["SolveCDF"], res["SolveUnc"]
     bad = []
+    if c.get("early") or u.get("early"):
+        return [f"{x}: unc={r['members'].get('unc')!r}, cdforces={r['members'].get('cdforces')!r} for all-diagonal matrices" for x, r in res.items() if r.get("early")]
     if c["members"].get("cdforces") is not False or "bo" in c["members"] or c["members"].get("unc") is not True:
         bad.append(f"cdforces={c['members'].get('cdforces')!r}")
     keys = ((set(c["members"]) | set(u["members"])) & _documented_members(ctx)) - {"mid", "bid", "kid"}          # mid, bid, kid: id()s of the caller's arrays
@@ -1104,6 +1126,11 @@ def r5_implicit_update(ctx):
             continue
         if rf:
             good_d = good_d and all(_eq(d[RF_, j] * k[RF_], f[RF_, j]) for j in range(nt))
+        acc = sol.attrs.get("a")
+        ok = isinstance(acc, I.NDArr) and acc.shape == d.shape and all(
+            _eq(m[K_] * acc[K_, j], fk[:, j] - bk @ vk[:, j] - k[K_] * dk[:, j]) for j in range(d.shape[1]))
+        ctx.check(ok, f"{tag}: the returned acceleration balances M a = F - B v - K d with the full damping B = diag + C_od at every step", where,
+                  None if ok else _show(acc))
         ctx.check(good_v and good_d, f"{tag}: the next step starts from the stored displacement and velocity and the damping force carried over is C_od V1 "
                                      "(the same equations hold for the second step)" + ("; the rf equation is solved statically" if rf else ""), where)
 
@@ -1155,9 +1182,9 @@ def r6_typing(ctx):
 RULES = [
     ("C17-R1", r1_four_branch_agreement, 29),
     ("C17-R2", r2_code_equals_documentation, 60),     # 63 with the three comment formulas (documentation only: they may be dropped)
-    ("C17-R3", r3_differences, 12),
+    ("C17-R3", r3_differences, 13),
     ("C17-R4", r4_cdf_equals_unc_on_diagonal, 7),
-    ("C17-R5", r5_implicit_update, 10),
+    ("C17-R5", r5_implicit_update, 12),
     ("C17-R6", r6_typing, 22),                        # the value obligations of the two leading-rf runs; the typer's count depends on the spelling
 ]
 LEVEL = "other"
